@@ -24,8 +24,9 @@ Definition stop_rule_ok (cc : ccase) (t : vec F64) (k : nat) : bool :=
   let ct := transpose c in let ap := @scalevec F64 a p in
   let t0 := eff_t0 o p in
   let mn := Z.to_nat (eff_min o) in let fq := Z.to_nat (eff_freq o) in
-  let x := @X F64 ct ap a t0 in
-  let d := @D F64 ct ap a mn fq t0 in
+  let xl := iterates ct ap a k t0 in
+  let x := fun j => nth j xl t0 in
+  let d := delta_at xl t0 mn fq in
   let sc := sched mn fq in
   vec_eqb t (x k)
   && forallb (fun j => negb (sc j) || negb (PrimFloat.leb (d j) e)) (seq 0 k)
